@@ -232,6 +232,11 @@ def volumes(name, n):
         v = np.zeros(n)
         v[-1] = 1.0
         return v
+    if name == "onehot_i64":
+        # one grain holds the whole volume, typed with integer literals (an int64 ndarray)
+        v = np.zeros(n, dtype=np.int64)
+        v[-1] = 1
+        return v
     if name == "dup":
         v = np.array([1.0, 2.0] * (n // 2 + 1))[:n]
         return v / v.sum()
